@@ -18,16 +18,42 @@ package storage
 //@   loop 0 invariant series-kept: forall j in 0..len(shard) :: shard[j].Series == atloop(shard[j].Series)
 //@   loop 0 invariant input-kept: forall j in 0..len(series) :: series[j].Series == old(series[j].Series) && series[j].Signature == old(series[j].Signature)
 
+// The selector cache. hashMatchers is assumed collision free (hashOf injective): equal keys mean
+// equal matcher list, select window, step, function and grouping hints. Lists are compared by identity.
+//@ smt (declare-fun hashOf (Int Int Int Int Int Int Int Int Int Int Bool) Int)
+//@ smt (assert (forall ((a1 Int) (a2 Int) (a3 Int) (a4 Int) (a5 Int) (a6 Int) (a7 Int) (a8 Int) (a9 Int) (a10 Int) (a11 Bool) (b1 Int) (b2 Int) (b3 Int) (b4 Int) (b5 Int) (b6 Int) (b7 Int) (b8 Int) (b9 Int) (b10 Int) (b11 Bool))
+//@      (! (=> (= (hashOf a1 a2 a3 a4 a5 a6 a7 a8 a9 a10 a11) (hashOf b1 b2 b3 b4 b5 b6 b7 b8 b9 b10 b11))
+//@             (and (= a1 b1) (= a2 b2) (= a3 b3) (= a4 b4) (= a5 b5) (= a6 b6) (= a7 b7) (= a8 b8) (= a9 b9) (= a10 b10) (= a11 b11)))
+//@         :pattern ((hashOf a1 a2 a3 a4 a5 a6 a7 a8 a9 a10 a11) (hashOf b1 b2 b3 b4 b5 b6 b7 b8 b9 b10 b11)))))
+//@ pred keyOf(ms, mint, maxt, h) = hashOf(ms.ptr, ms.off, len(ms), mint, maxt, h.Step, h.Func, h.Grouping.ptr, h.Grouping.off, len(h.Grouping), h.By)
+//@ func hashMatchers
+//@   trusted xxhash over matchers, window, step, function and grouping hints; assumed collision free
+//@   ensures result == keyOf(matchers, mint, maxt, hints)
+//@ pred selOK(s, k) = s != nil && allocated(s) && keyOf(s.matchers, s.mint, s.maxt, s.hints) == k && s.hints.Start == s.mint && s.hints.End == s.maxt && s.once == 0
+//@ pred poolInv(p) = p != nil && !isnil(p.selectors) && (forall k :: has(p.selectors, k) ==> selOK(p.selectors[k], k))
+
 //@ func NewSelectorPool
 //@   assigns nothing
-//@   ensures[C12,C20] per-query-pool: result != nil && fresh(result) && result.queryable == queryable && !isnil(result.selectors)
+//@   ensures[C12,C20] per-query-pool: result != nil && fresh(result) && result.queryable == queryable && poolInv(result)
 
-// GetSelector / GetFilteredSelector hand out a selector created with the requested matchers, time
-// range and hints, and never touch the storage (C16, C17).
+// GetSelector / GetFilteredSelector hand out a selector that was created with the requested
+// matchers, select window and hints (C02, C09, C16), and never touch the storage (C17).
 //@ pred matchersOK(ms) = forall i in 0..len(ms) :: ms[i] != nil
+//@ pred selectorFor(s, matchers, mint, maxt, hints) = s != nil && sameslice(s.matchers, matchers) && s.mint == mint && s.maxt == maxt &&
+//@     s.hints.Start == hints.Start && s.hints.End == hints.End && s.hints.Step == hints.Step && s.hints.Func == hints.Func &&
+//@     s.hints.By == hints.By && sameslice(s.hints.Grouping, hints.Grouping) && s.once == 0
 //@ func (*SelectorPool).GetSelector
-//@   requires p != nil && !isnil(p.selectors) && matchersOK(matchers)
-//@   ensures result != nil
+//@   requires poolInv(p) && matchersOK(matchers) && hints.Start == mint && hints.End == maxt
+//@   ensures pool-kept: poolInv(p)
+//@   ensures[C02,C09,C16,C17] selector-as-requested: istype(result, *engstore.seriesSelector) &&
+//@       selectorFor(cast(result, *engstore.seriesSelector), matchers, mint, maxt, hints)
 //@ func (*SelectorPool).GetFilteredSelector
-//@   requires p != nil && !isnil(p.selectors) && matchersOK(matchers) && matchersOK(filters)
+//@   requires poolInv(p) && matchersOK(matchers) && matchersOK(filters) && hints.Start == mint && hints.End == maxt
+//@   ensures pool-kept: poolInv(p)
+//@   ensures[C03,C09,C16,C17] selector-as-requested: istype(result, *engstore.filteredSelector) &&
+//@       selectorFor(cast(result, *engstore.filteredSelector).selector, matchers, mint, maxt, hints)
+//@   ensures[C09] filter-as-requested: cast(result, *engstore.filteredSelector).filter != nil && cast(result, *engstore.filteredSelector).once == 0
+
+//@ func NewFilter
+//@   requires matchersOK(matchers)
 //@   ensures result != nil
